@@ -1875,10 +1875,16 @@ class SolveUnc(_BaseODE):
                 a_rb = force[rb]
             if "d" in incrb or "v" in incrb:
                 pvnz = freqw != 0
+                # note: `rb` may be an index vector, so cannot use
+                # ``v[rb, pvnz] = ...`` (that would pair the indices)
                 if "v" in incrb:
-                    v[rb, pvnz] = (-1j / freqw[pvnz]) * a_rb[:, pvnz]
+                    v_rb = np.zeros_like(a_rb, dtype=complex)
+                    v_rb[:, pvnz] = (-1j / freqw[pvnz]) * a_rb[:, pvnz]
+                    v[rb] = v_rb
                 if "d" in incrb:
-                    d[rb, pvnz] = (-1.0 / freqw2[pvnz]) * a_rb[:, pvnz]
+                    d_rb = np.zeros_like(a_rb, dtype=complex)
+                    d_rb[:, pvnz] = (-1.0 / freqw2[pvnz]) * a_rb[:, pvnz]
+                    d[rb] = d_rb
             if "a" in incrb:
                 a[rb] = a_rb
 
